@@ -213,6 +213,6 @@ def run_check(prop, lens, args, seed, known, t0):
         print("HARNESS-ERROR", h)
     print(
         f"{prop} {tier}: {agg['evaluations']} runs, {len(agg['sig'])} distinct states, "
-        f"{agg['events']} events, faults {agg['faults_fired']}, {wall:.1f}s, exit {status}"
+        f"{agg['events']} events, faults {agg['faults_fired']}, reach {agg['reach']}, {wall:.1f}s, exit {status}"
     )
     return status
